@@ -180,6 +180,30 @@ func (g *gen) call(instr ssa.Instruction, c *ssa.CallCommon, pos token.Pos) Val 
 					}
 				}
 			}
+			if g.astValid && args[i].Place == nil {
+				// callees assume that syntax-node arguments are nodes of the analysed tree (or nil, for interface-typed ones)
+				g.declTnode()
+				if isAstPtr(p.Type()) && args[i].Sort == "Int" {
+					g.obligeAndAssume("nilarg", g.label(pos, callee.Name(), "call")+" arg "+p.Name()+" is a tree node", app("tnode", args[i].T), pos)
+				} else if isAstNodeSlice(p.Type()) && args[i].Sort == "Slice" && !walkerEntry[callee.Name()] {
+					g.declareFun("astlist", []string{"Int"}, "Bool")
+					q := g.freshName("li")
+					sl := args[i].T
+					es := "Int"
+					if isAstIfaceSlice(p.Type()) {
+						es = "Iface"
+					}
+					el := app("select", app("select", g.heapGet(elemKey(es), arr("Int", arr("Int", es))), app("s_base", sl)), sidx(app("s_off", sl), q))
+					body := app("tnode", el)
+					if es == "Iface" {
+						body = and(not(eq(app("i_tag", el), "0")), app("tnode", app("i_val", el)))
+					}
+					all := fmt.Sprintf("(forall ((%s Int)) (! (=> (and (<= 0 %s) (< %s (s_len %s))) %s) :pattern (%s)))", q, q, q, sl, body, el)
+					g.obligeAndAssume("nilarg", g.label(pos, callee.Name(), "call")+" arg "+p.Name()+" is a list of tree nodes", and(all, or(eq(app("s_len", sl), "0"), app("astlist", app("s_base", sl)))), pos)
+				} else if isAstIface(p.Type()) && args[i].Sort == "Iface" && !(isRecv) && !walkerEntry[callee.Name()] {
+					g.obligeAndAssume("nilarg", g.label(pos, callee.Name(), "call")+" arg "+p.Name()+" is nil or a tree node", or(eq(app("i_tag", args[i].T), "0"), app("tnode", app("i_val", args[i].T))), pos)
+				}
+			}
 		}
 	}
 	if g.e.inRepo(callee) && g.sweepFrames != "" && len(callee.Blocks) > 0 {
@@ -229,11 +253,20 @@ func (g *gen) call(instr ssa.Instruction, c *ssa.CallCommon, pos token.Pos) Val 
 		if r.Sort == "Int" {
 			if strings.Contains(key, "astcast.To") {
 				g.assume(not(eq(r.T, "0")))
+				g.astcastModel(sig, args, r)
 			} else if len(args) == 1 && args[0].Sort == "Int" {
 				g.assume(implies(not(eq(args[0].T, "0")), not(eq(r.T, "0"))))
+				if g.astValid {
+					g.declTnode()
+					g.assume(implies(app("tnode", args[0].T), app("tnode", r.T)))
+				}
 			}
 		} else if r.Sort == "Iface" && len(args) == 1 && args[0].Sort == "Iface" {
 			g.assume(implies(not(eq(app("i_tag", args[0].T), "0")), and(eq(app("i_tag", r.T), app("i_tag", args[0].T)), not(eq(app("i_val", r.T), "0")))))
+			if g.astValid {
+				g.declTnode()
+				g.assume(implies(app("tnode", app("i_val", args[0].T)), app("tnode", app("i_val", r.T))))
+			}
 		}
 		if strings.Contains(key, "astcopy.") && g.sweepFrames != "" {
 			g.declareFun("private", []string{"Int"}, "Bool")
@@ -480,6 +513,22 @@ func (g *gen) applyContractEnv(ctr *Contract, key string, sig *types.Signature, 
 		vars[k] = v
 	}
 	post.vars = vars
+	// captured variables are re-read in the state after the call (old(x) still sees the value before it)
+	var oldFV map[string]Val
+	if callee != nil {
+		for i, fv := range callee.FreeVars {
+			if i < len(bindings) {
+				if pv, ok := env.vars["&"+fv.Name()]; ok {
+					if oldFV == nil {
+						oldFV = map[string]Val{}
+					}
+					oldFV[fv.Name()] = env.vars[fv.Name()]
+					post.vars[fv.Name()] = g.load(pv, fv.Type().(*types.Pointer).Elem())
+				}
+			}
+		}
+	}
+	post.oldVars = oldFV
 	g.bindResults(&post, sig, results)
 	// named results are plain names in callee contracts
 	for i := 0; i < sig.Results().Len() && i < len(results); i++ {
@@ -1117,4 +1166,48 @@ func (e *Engine) ifaceMethodContract(t types.Type, method string) *Contract {
 		return nil
 	}
 	return e.ctrs[shortPkg(n.Obj().Pkg().Path())+".*."+method]
+}
+
+
+// astcastModel: astcast.ToX(n) is n's payload when n holds a *ast.X, and otherwise the package-level sentinel
+// astcast.NilX, an all-zero node (its fields read as nil / empty / ""); the sentinel is not a tree node.
+func (g *gen) astcastModel(sig *types.Signature, args []Val, r Val) {
+	if len(args) != 1 || args[0].Sort != "Iface" || sig.Results().Len() != 1 {
+		return
+	}
+	rt := sig.Results().At(0).Type()
+	pt, ok := rt.Underlying().(*types.Pointer)
+	if !ok {
+		return
+	}
+	st, ok := pt.Elem().Underlying().(*types.Struct)
+	if !ok {
+		return
+	}
+	sname := g.st.structName(pt.Elem())
+	sent := "sentinel_" + sanitize(sname)
+	g.declare(sent, "Int")
+	hit := eq(app("i_tag", args[0].T), fmt.Sprint(g.st.tagOf(rt)))
+	g.assume(ite(hit, eq(r.T, app("i_val", args[0].T)), eq(r.T, sent)))
+	g.assume(not(eq(sent, "0")))
+	if g.astValid {
+		g.declTnode()
+		g.assume(not(app("tnode", sent)))
+	}
+	for i := 0; i < st.NumFields(); i++ {
+		f := st.Field(i)
+		if _, isStruct := structOf(f.Type()); isStruct {
+			continue
+		}
+		s := g.st.sortOf(f.Type())
+		k := fieldKey(sname, f.Name())
+		g.assume(eq(app("select", g.heapGet(k, arr("Int", s)), sent), g.st.zero(f.Type())))
+	}
+	if strings.HasSuffix(sname, "ast.Ident") {
+		// the type checker records nothing for an identifier that is not part of the checked files
+		g.declareFun("spec_infoObjectOf", []string{"Int", "Int"}, "Iface")
+		q := g.freshName("inf")
+		g.assumed["theory go-types: Info.ObjectOf(astcast.NilIdent) is nil"] = true
+		g.assumeGlobal(fmt.Sprintf("(forall ((%s Int)) (! (= (i_tag (spec_infoObjectOf %s %s)) 0) :pattern ((spec_infoObjectOf %s %s))))", q, q, sent, q, sent))
+	}
 }
